@@ -13,6 +13,16 @@ IS the linearisation.  The oracle steps a dictionary model (entity -> state stri
 last_changed / last_updated / last_reported on the virtual clock) through that order and compares,
 after every step, the value / exception type of the operation and the whole photographed state
 machine with the model.  This is model conformance along simulated multi-writer interleavings.
+
+Attribute names: besides the two ordinary names, about a third of the runs give the entities REAL attributes
+named like the virtual fields (entity_id / last_changed / last_updated / last_reported, as Home Assistant's group
+entities have), set externally, initially and from the script in every write form; reads by dotted name and
+state.get must then still yield the virtual field, snapshots hide the real attribute, state.getattr(name) shows it.
+Two more situations sit behind steer coins because the unchanged code violates the property there (classes
+C16.setattr_param_name and C16.aliasing): attributes named like the parameters of state.set (value,
+new_attributes, var_name) written with ``DOMAIN.name.attr = v`` / state.setattr, and a script that changes, in
+place, a list/dict attribute value it has read (``mut``), which must leave the state machine and earlier snapshots
+alone.
 """
 
 from __future__ import annotations
@@ -31,7 +41,10 @@ RULE = (
     "seeded generation of (script with 1-3 @service writers x straight-line sequences of read / capture / "
     "re-inspect / assign / attribute-assign / state.set (value x new_attributes x keywords, positional and "
     "keyword forms, snapshot as value) / state.setattr / del / state.delete / state.exist / state.names / "
-    "state.getattr over 2-3 entities x 2 attributes + 2 shadowed names, values str/int/float/bool/None/list/dict; "
+    "state.getattr / in-place change of a list/dict attribute value that was read (steer coin, 25% of runs) over 2-3 "
+    "entities x 2 attributes + 2 shadowed names, values str/int/float/bool/None/list/dict; in 35% of the runs 1-2 "
+    "additional REAL attributes named like the virtual fields (initial, external, and written from script), in 20% "
+    "(steer coin) attributes named like the parameters of state.set; "
     "optional native services of the same names, optional @state_trigger on the busiest names; "
     "an external writer and stalls on the virtual clock; writer start and per-operation timing: same pass, few "
     "passes, 0.25 s grid); distinct = scenario digest; non-trivial = at least 2 script writes that changed the "
@@ -54,8 +67,19 @@ ASSUMPTIONS = [
     "new_attributes and keyword attributes in one call never name the same key (open which one wins)",
     "snapshot contents are observed through attribute access (getattr) on the object the script holds, the names "
     "probed are the generated attribute names and the four virtual fields",
-    "state.exist on virtual fields, attributes named like virtual fields, names with other than 1-2 dots, "
-    "entity ids that HA would reject and states longer than 255 characters are not generated",
+    "the virtual fields take precedence over real attributes of the same name for DOMAIN.name.FIELD, "
+    "state.get('DOMAIN.name.FIELD') and on snapshots (docs/reference.rst), state.getattr(name) returns the real "
+    "attributes; state.getattr(snapshot) is compared without keys named like virtual fields, state.exist of a "
+    "virtual field without a real attribute of that name only has to answer with a bool, and a snapshot given as "
+    "the value may carry its real attributes of those names or not (all three: documentation is silent)",
+    "an attribute is an attribute whatever its name: `DOMAIN.name.value = v` / state.setattr('DOMAIN.name.value', v) "
+    "(and new_attributes, var_name) must change only that attribute; such names are never passed as keyword "
+    "arguments of state.set (its signature reserves them)",
+    "a value obtained by a read belongs to the script: changing it in place (list.append, dict item assignment) must "
+    "not change Home Assistant's state machine nor a snapshot captured earlier ('a captured snapshot never changes "
+    "afterwards'); consequences of a reported aliasing on snapshots are classified C16.aliasing by value",
+    "names with other than 1-2 dots, entity ids that HA would reject and states longer than 255 characters are "
+    "not generated",
     "attribute reads/writes by dotted name on a name that collides with a service, and anything but plain "
     "read/assign/del through a shadowing Python variable, are not generated (documentation is silent)",
 ]
@@ -68,6 +92,7 @@ REACH_PROBES = [
     "new_attributes_replace", "service_name_shadows_state", "local_shadows_state", "global_shadows_state",
     "reported_only_write", "missing_attr_read", "ext_write_between_script_ops", "kw_merge_keeps_other",
     "omitted_value_kept", "same_pass_two_writers", "eq_but_other_type_attr",
+    "virtual_named_attr_read", "virtual_named_attr_written", "attr_named_like_set_param", "read_value_mutated_in_place",
 ]
 SHRINK_LISTS = [["ops"], ["spec", "writers"], ["spec", "writers", "*", "ops"]]
 
@@ -80,8 +105,14 @@ ATTRS = ["a0", "a1"]
 VIRTUAL = ["entity_id", "last_changed", "last_updated", "last_reported"]
 N_SLOTS = 2
 
+# attribute names that are also parameter names of state.set(var_name, value=None, new_attributes=None, **kwargs):
+# legal attribute names for `DOMAIN.name.attr = v` / state.setattr / reads / del, but not usable as keyword attributes
+SETPARAM_ATTRS = ["value", "new_attributes", "var_name"]
+
 VALUES = ["on", "off", "5", "", "unknown", 0, 1, 5, -3, 1.0, 1.5, True, False, None, [1, "x"], [], {"k": 1}, {}]
 EQ_VALUES = [0, False, 1, True, 1.0]
+MUT_ITEM = "m"
+MUTABLE_VALUES = [[1, "x"], [], {"k": 1}, {}, [[2]], {"k": [3]}]
 EXT_STATES = ["on", "off", "5", "1", "", "idle"]
 
 
@@ -97,12 +128,23 @@ def _gen_val(rng: random.Random):
     return copy.deepcopy(rng.choice(VALUES))
 
 
-def _gen_attrs(rng: random.Random, p: float = 0.55) -> dict:
-    return {a: _gen_val(rng) for a in ATTRS if rng.random() < p}
+def _gen_attrs(rng: random.Random, p: float = 0.55, xattrs=()) -> dict:
+    out = {a: _gen_val(rng) for a in ATTRS if rng.random() < p}
+    for a in xattrs:  # extra attribute names of this run (drawn only when there are any: old streams unchanged)
+        if rng.random() < 0.5:
+            out[a] = _gen_val(rng)
+    return out
 
 
-def _gen_set(rng: random.Random, ent: str, captured: list[int]) -> dict:
+def _pick_attr(rng: random.Random, xattrs=()) -> str:
+    if xattrs and rng.random() < 0.45:
+        return rng.choice(list(xattrs))
+    return rng.choice(ATTRS)
+
+
+def _gen_set(rng: random.Random, ent: str, captured: list[int], xattrs=()) -> dict:
     """state.set in one of its argument combinations."""
+    kwsafe = [a for a in xattrs if a not in SETPARAM_ATTRS]  # usable as keyword arguments of state.set
     vm = rng.choice(["omit", "pos", "pos", "kw"])
     val = {"m": vm}
     if vm != "omit":
@@ -118,10 +160,10 @@ def _gen_set(rng: random.Random, ent: str, captured: list[int]) -> dict:
         nm = "kw"
     na = {"m": nm}
     if nm != "omit":
-        na["v"] = None if rng.random() < 0.15 else _gen_attrs(rng, 0.45)
+        na["v"] = None if rng.random() < 0.15 else _gen_attrs(rng, 0.45, xattrs)
     kw = {}
     if rng.random() < 0.5:
-        free = [a for a in ATTRS if not (isinstance(na.get("v"), dict) and a in na["v"])]
+        free = [a for a in ATTRS + kwsafe if not (isinstance(na.get("v"), dict) and a in na["v"])]
         for a in free:
             if rng.random() < 0.6:
                 kw[a] = _gen_val(rng)
@@ -129,8 +171,9 @@ def _gen_set(rng: random.Random, ent: str, captured: list[int]) -> dict:
 
 
 def _gen_wop(rng: random.Random, ents: list[str], hot: str | None, svc: list[str], shadow_names: list[str],
-             captured: list[int], shadow_del: bool = True) -> dict:
+             captured: list[int], shadow_del: bool = True, xattrs=(), mut: bool = False) -> dict:
     """One writer operation (without timing). ``captured``: slots that hold a snapshot so far (updated)."""
+    rattrs = ATTRS + ATTRS + VIRTUAL + list(xattrs) * 2  # attribute names for reads
     roll = rng.random()
     if shadow_names and roll < 0.12:
         ent = rng.choice(shadow_names)
@@ -146,11 +189,11 @@ def _gen_wop(rng: random.Random, ents: list[str], hot: str | None, svc: list[str
     ent = hot if (hot is not None and rng.random() < 0.55) else rng.choices(pool, weights)[0]
     by_name_ok = ent not in shadow_names  # by-name forms through a shadowing variable: only the three above
     is_coll = ent in svc
-    attr = rng.choice(ATTRS)
+    attr = _pick_attr(rng, xattrs)
     kind = rng.choices(
         ["read", "cap", "insp", "insp_attr", "read_attr", "get", "assign", "attr_assign", "set", "setattr",
-         "del", "exist", "names", "getattr", "svc_call"],
-        [7, 6, 8, 4, 7, 7, 9, 8, 16, 5, 6, 5, 3, 5, 5 if (is_coll and by_name_ok) else 0],
+         "del", "exist", "names", "getattr", "svc_call", "mut"],
+        [7, 6, 8, 4, 7, 7, 9, 8, 16, 5, 6, 5, 3, 5, 5 if (is_coll and by_name_ok) else 0, 5 if mut else 0],
     )[0]
     if kind in ("insp", "insp_attr") and not captured:
         kind = "cap"
@@ -167,19 +210,23 @@ def _gen_wop(rng: random.Random, ents: list[str], hot: str | None, svc: list[str
     if kind == "insp":
         return {"k": "insp", "slot": rng.choice(captured)}
     if kind == "insp_attr":
-        return {"k": "insp_attr", "slot": rng.choice(captured), "attr": rng.choice(ATTRS + VIRTUAL)}
+        return {"k": "insp_attr", "slot": rng.choice(captured), "attr": rng.choice(ATTRS + VIRTUAL + list(xattrs))}
+    if kind == "mut":
+        # read an attribute and change the value that was read in place (list.append / dict item assignment)
+        via = "get" if (is_coll or not by_name_ok) else rng.choice(["name", "get"])
+        return {"k": "mut", "e": ent, "attr": rng.choice(ATTRS), "via": via}
     if kind == "read_attr":
-        at = rng.choice(ATTRS + ATTRS + VIRTUAL)
+        at = rng.choice(rattrs)
         if is_coll or not by_name_ok:
             return {"k": "get", "name": f"{ent}.{at}"}
         return {"k": "read_attr", "e": ent, "attr": at}
     if kind == "get":
         if rng.random() < 0.5:
             return {"k": "get", "name": ent}
-        return {"k": "get", "name": f"{ent}.{rng.choice(ATTRS + ATTRS + VIRTUAL)}"}
+        return {"k": "get", "name": f"{ent}.{rng.choice(rattrs)}"}
     if kind == "assign":
         if not by_name_ok:
-            return _gen_set(rng, ent, captured)
+            return _gen_set(rng, ent, captured, xattrs)
         if captured and rng.random() < 0.25:
             return {"k": "assign", "e": ent, "slot": rng.choice(captured)}
         return {"k": "assign", "e": ent, "v": _gen_val(rng)}
@@ -188,7 +235,7 @@ def _gen_wop(rng: random.Random, ents: list[str], hot: str | None, svc: list[str
             return {"k": "setattr", "e": ent, "attr": attr, "v": _gen_val(rng)}
         return {"k": "attr_assign", "e": ent, "attr": attr, "v": _gen_val(rng)}
     if kind == "set":
-        return _gen_set(rng, ent, captured)
+        return _gen_set(rng, ent, captured, xattrs)
     if kind == "setattr":
         return {"k": "setattr", "e": ent, "attr": attr, "v": _gen_val(rng)}
     if kind == "del":
@@ -222,13 +269,28 @@ def gen(rng: random.Random, tier: str) -> dict:
     # `del` through a shadowing variable is a known finding (it goes to the state machine); most runs steer
     # clear of it so that everything after it in a run keeps being judged
     shadow_del = rng.random() < 0.35
+    # extra attribute names of this run: real attributes named like the virtual fields (as Home Assistant's group
+    # entities have: 'entity_id' is the member list) ...
+    xattrs: list[str] = []
+    if rng.random() < 0.35:
+        xattrs += rng.sample(VIRTUAL, rng.choice([1, 1, 2]))
+    # ... and (steer coin: a finding on the unchanged tree, most runs stay clear of it) attributes named like the
+    # parameters of state.set
+    if rng.random() < 0.2:
+        xattrs += rng.sample(SETPARAM_ATTRS, rng.choice([1, 2]))
+    # in-place mutation of attribute values that were read (steer coin, same reason)
+    mut = rng.random() < 0.25
     initial = {}
     for ent in ents:
         if rng.random() < 0.6:
-            initial[ent] = [rng.choice(EXT_STATES), _gen_attrs(rng)]
+            initial[ent] = [rng.choice(EXT_STATES), _gen_attrs(rng, 0.55, xattrs)]
     for ent in (G_ENT, L_ENT):
         if rng.random() < 0.8:
-            initial[ent] = [rng.choice(EXT_STATES), _gen_attrs(rng, 0.3)]
+            initial[ent] = [rng.choice(EXT_STATES), _gen_attrs(rng, 0.3, xattrs)]
+    if mut:
+        for ent in sorted(initial):
+            if rng.random() < 0.6:
+                initial[ent][1][rng.choice(ATTRS)] = copy.deepcopy(rng.choice(MUTABLE_VALUES))
     cfg["initial_states"] = initial
     max_ops = TIERS[tier]["max_ops"]
     n_w = rng.choice([1, 2, 2, 3])
@@ -245,7 +307,7 @@ def gen(rng: random.Random, tier: str) -> dict:
         captured: list[int] = []
         for _ in range(rng.randint(max(2, share // 2), share)):
             op = gen_delay(rng, burst_p=burst_p, max_steps=4)
-            op.update(_gen_wop(rng, ents, hot, svc, shadow_names, captured, shadow_del))
+            op.update(_gen_wop(rng, ents, hot, svc, shadow_names, captured, shadow_del, xattrs, mut))
             wops.append(op)
         writers.append({"name": f"w{wi}", "lshadow": lshadow, "ops": wops})
     ops = []
@@ -262,11 +324,12 @@ def gen(rng: random.Random, tier: str) -> dict:
         elif roll < 0.25:
             op.update({"kind": "stall", "s": rng.choice([0.01, 0.2, 1.5])})
         else:
-            op.update({"kind": "set", "e": ent, "s": rng.choice(EXT_STATES), "a": _gen_attrs(rng)})
+            op.update({"kind": "set", "e": ent, "s": rng.choice(EXT_STATES), "a": _gen_attrs(rng, 0.55, xattrs)})
         ops.insert(rng.randint(1, len(ops)), op)
     return {
         "cfg": cfg,
-        "spec": {"ents": ents, "svc": svc, "gshadow": gshadow, "trig": rng.random() < 0.4, "writers": writers},
+        "spec": {"ents": ents, "svc": svc, "gshadow": gshadow, "trig": rng.random() < 0.4, "writers": writers,
+                 "xattrs": xattrs, "mut": mut},
         "ops": ops,
     }
 
@@ -292,6 +355,10 @@ def _op_src(op: dict) -> list[str]:
         return [f"r = s{op['slot']}.{op['attr']}"]
     if k == "read_attr":
         return [f"r = {op['e']}.{op['attr']}"]
+    if k == "mut":
+        rhs = f"{op['e']}.{op['attr']}" if op["via"] == "name" else f"state.get({op['e'] + '.' + op['attr']!r})"
+        return [f"r = {rhs}", "if isinstance(r, list):", f"    r.append({MUT_ITEM!r})", "elif isinstance(r, dict):",
+                f"    r[{MUT_ITEM!r}] = 1"]
     if k == "get":
         return [f"r = state.get({op['name']!r})"]
     if k == "assign":
@@ -420,6 +487,41 @@ def simplify(scn: dict):
         cand = copy.deepcopy(scn)
         cand["spec"]["trig"] = False
         yield cand
+    if scn["spec"].get("svc"):
+        cand = copy.deepcopy(scn)
+        cand["spec"]["svc"] = []
+        yield cand
+    # the extra attribute names, one at a time: a name no writer operation mentions is dropped everywhere
+    for name in scn["spec"].get("xattrs", []):
+        if not any(_op_mentions(op, name) for wr in scn["spec"]["writers"] for op in wr["ops"]):
+            cand = copy.deepcopy(scn)
+            cand["spec"]["xattrs"] = [a for a in cand["spec"]["xattrs"] if a != name]
+            for pair in (cand["cfg"].get("initial_states") or {}).values():
+                pair[1].pop(name, None)
+            for op in cand["ops"]:
+                if op["kind"] == "set" and op.get("a"):
+                    op["a"].pop(name, None)
+            yield cand
+    # in-place mutation of a read value: back to a plain read; the feature off when no operation uses it
+    for wi, wr in enumerate(scn["spec"]["writers"]):
+        for oi, op in enumerate(wr["ops"]):
+            if op["k"] == "mut":
+                cand = copy.deepcopy(scn)
+                cop = cand["spec"]["writers"][wi]["ops"][oi]
+                cop["k"] = "get"
+                cop["name"] = f"{cop.pop('e')}.{cop.pop('attr')}"
+                cop.pop("via", None)
+                yield cand
+    if scn["spec"].get("mut") and not any(op["k"] == "mut" for wr in scn["spec"]["writers"] for op in wr["ops"]):
+        cand = copy.deepcopy(scn)
+        cand["spec"]["mut"] = False
+        yield cand
+    for ent, (_s, attrs) in (scn["cfg"].get("initial_states") or {}).items():
+        if len(attrs) > 1:
+            for name in attrs:
+                cand = copy.deepcopy(scn)
+                del cand["cfg"]["initial_states"][ent][1][name]
+                yield cand
     if scn["cfg"].get("initial_states"):
         for ent in list(scn["cfg"]["initial_states"]):
             cand = copy.deepcopy(scn)
@@ -437,6 +539,15 @@ def simplify(scn: dict):
             yield cand
 
 
+def _op_mentions(op: dict, name: str) -> bool:
+    """Does a writer operation name the attribute ``name``?"""
+    if op.get("attr") == name or op.get("name", "").endswith("." + name):
+        return True
+    if op["k"] == "set":
+        return name in op["kw"] or (isinstance(op["na"].get("v"), dict) and name in op["na"]["v"])
+    return False
+
+
 # ------------------------------------------------------------------ world with the photographing mark hook
 _MISSING = object()
 _TAINT = object()
@@ -451,6 +562,7 @@ class C16World(World):
         self.pre_iter: dict = {}
         self.hook_errors: list[str] = []
         self.svc_calls: list[dict] = []
+        self.attr_names: list[str] = list(ATTRS)  # attribute names probed on snapshots (never the virtual fields)
 
     # -- observation helpers
     def now(self):
@@ -469,8 +581,7 @@ class C16World(World):
                             "lu": st.last_updated, "lr": st.last_reported}
         return out
 
-    @staticmethod
-    def inspect(val) -> dict:
+    def inspect(self, val) -> dict:
         """What the script holds, observed through the public surface of the object."""
         if val is None:
             return {"t": "none"}
@@ -480,7 +591,7 @@ class C16World(World):
             if type(val) is str:  # pylint: disable=unidiomatic-typecheck
                 return {"t": "str", "v": val}
             out = {"t": "SV", "s": str(val), "a": {}}
-            for name in ATTRS:
+            for name in self.attr_names:
                 got = getattr(val, name, _MISSING)
                 if got is not _MISSING:
                     out["a"][name] = copy.deepcopy(got)
@@ -530,7 +641,10 @@ def warmup() -> None:
 
 def run(scn: dict) -> dict:
     spec = scn["spec"]
-    w = C16World(scn["cfg"], render(scn))
+    # the world gets its own copy: attribute values handed to Home Assistant are shared with the state machine, and a
+    # script that changes such a value in place must not change the scenario
+    w = C16World(copy.deepcopy(scn["cfg"]), render(scn))
+    w.attr_names = list(ATTRS) + [a for a in spec.get("xattrs", []) if a not in VIRTUAL]
     horizon = 1.0 + max([sum(op.get("dt", 0.0) for op in wr["ops"]) for wr in spec["writers"]] + [0.0])
 
     async def driver(w: C16World):
@@ -551,7 +665,7 @@ def run(scn: dict) -> dict:
             if kind == "start":
                 await w.call_service("pyscript", op["w"], {}, blocking=False)
             elif kind == "set":
-                w.set_state(op["e"], op["s"], op.get("a") or {})
+                w.set_state(op["e"], op["s"], copy.deepcopy(op.get("a") or {}))
                 w.record_ext(op)
             elif kind == "remove":
                 w.remove_state(op["e"])
@@ -818,9 +932,9 @@ def oracle(w: C16World, scn: dict):  # noqa: C901  pylint: disable=too-many-bran
             continue
 
         # ------------------------------------------------------------ reads
-        if k in ("read", "cap", "read_attr", "get"):
-            via = "name" if k in ("read", "read_attr") or (k == "cap" and op["via"] == "name") else "state.get"
-            want_attr = attr if k in ("read_attr", "get") else None
+        if k in ("read", "cap", "read_attr", "get", "mut"):
+            via = "name" if k in ("read", "read_attr") or (k in ("cap", "mut") and op["via"] == "name") else "state.get"
+            want_attr = attr if k in ("read_attr", "get", "mut") else None
             if cur is None:
                 case, exp_exc = "missing_entity", "NameError"
             elif want_attr is not None and want_attr not in VIRTUAL and want_attr not in cur["a"]:
@@ -843,21 +957,53 @@ def oracle(w: C16World, scn: dict):  # noqa: C901  pylint: disable=too-many-bran
                 if want_attr is None:
                     _judge_snapshot(viol, sig, desc, ent, cur, res, t)
                 elif want_attr in VIRTUAL:
+                    # the virtual fields take precedence over a real attribute of the same name
                     exp_v = {"entity_id": ent, "last_changed": cur["lc"], "last_updated": cur["lu"],
                              "last_reported": cur["lr"]}[want_attr]
                     got_v = res.get("v")
                     if got_v != exp_v or (want_attr == "entity_id" and res["t"] != "str"):
-                        cls = "read_value" if want_attr == "entity_id" else "timestamps"
-                        viol(cls, dict(sig, field=want_attr), f"{desc}: expected {exp_v!r}, the read {got_txt}", t)
+                        if want_attr in cur["a"]:
+                            viol("virtual_field", dict(sig, field=want_attr, real_attr_same_name=True),
+                                 f"{desc}: {ent} is {_fmt(cur)}; `{want_attr}` is a virtual field and takes precedence "
+                                 f"over the entity's attribute of that name: expected {exp_v!r}, the read {got_txt}", t)
+                        else:
+                            cls = "read_value" if want_attr == "entity_id" else "timestamps"
+                            viol(cls, dict(sig, field=want_attr), f"{desc}: expected {exp_v!r}, the read {got_txt}", t)
+                    elif want_attr in cur["a"]:
+                        w.probe("virtual_named_attr_read")
                 else:
-                    exp_v = cur["a"][want_attr]
+                    exp_v = _mutated(cur["a"][want_attr]) if k == "mut" else cur["a"][want_attr]
                     if J(_plain(res)) != J(exp_v) or res["t"] == "SV":
-                        viol("read_value", sig, f"{desc}: attribute is {exp_v!r}, the read {got_txt}", t)
+                        viol("read_value", sig, f"{desc}: attribute is {cur['a'][want_attr]!r}, the read {got_txt}", t)
             if k == "cap":
                 if st == "ok" and res["t"] == "SV":
-                    slots[(wname, op["slot"])] = {"insp": res, "ent": ent, "entry": copy.deepcopy(cur)}
+                    slots[(wname, op["slot"])] = {"insp": res, "ent": ent, "entry": copy.deepcopy(cur), "alias": {}}
                 else:
                     slots.pop((wname, op["slot"]), None)
+            if k == "mut" and exp_exc is None and st == "ok" and isinstance(cur["a"][want_attr], (list, dict)):
+                # the script changed, in place, the value it had read: that is its own object; neither the state
+                # machine nor snapshots captured earlier may change
+                w.probe("read_value_mutated_in_place")
+                pre_j, post = J(cur["a"][want_attr]), _mutated(cur["a"][want_attr])
+                post_j = J(post)
+
+                def classify_alias(ent_, diff, exp, got, _a=want_attr, _post_j=post_j, _via=via):
+                    if diff == ["attrs"]:
+                        wrong = [key for key in sorted(set(exp["a"]) | set(got["a"]))
+                                 if (key in exp["a"]) != (key in got["a"]) or J(exp["a"].get(key)) != J(got["a"].get(key))]
+                        if all(key in got["a"] and J(got["a"][key]) == _post_j for key in wrong):
+                            return ("aliasing", {"op": "mutate_read_value", "effect": "state_machine"})
+                    return ("unexpected_write", {"op": "mut", "fields": "+".join(diff)})
+
+                if check_photo(step, desc, classify_alias):
+                    # snapshots that carried the same value may share the object: what they show from now on is
+                    # classified as the same aliasing (C16.aliasing) rather than as a spontaneous snapshot change
+                    for key_ in sorted(slots):
+                        held_ = slots[key_]
+                        for aname, aval in held_["insp"]["a"].items():
+                            if J(aval) == pre_j or pre_j in held_["alias"].get(aname, []):
+                                held_["alias"].setdefault(aname, []).append(post_j)
+                continue
             check_photo(step, desc, classify)
             continue
 
@@ -872,7 +1018,11 @@ def oracle(w: C16World, scn: dict):  # noqa: C901  pylint: disable=too-many-bran
                 if k == "insp":
                     stats["reads"] += 1
                     fields = _insp_diff(held["insp"], res) if st == "ok" else ["raised"]
-                    if fields:
+                    if fields == ["attrs"] and _alias_only(held, res["a"]):
+                        viol("aliasing", {"op": "mutate_read_value", "effect": "snapshot"},
+                             f"{desc}: snapshot of {held['ent']} captured as {_res_txt(held['insp'])} now {got_txt}: "
+                             f"it shares a list/dict with a value that was read separately and changed in place", t)
+                    elif fields:
                         viol("snapshot_mutated", dict(sig, fields="+".join(fields)),
                              f"{desc}: snapshot of {held['ent']} captured as {_res_txt(held['insp'])} now "
                              f"{got_txt}", t)
@@ -889,7 +1039,12 @@ def oracle(w: C16World, scn: dict):  # noqa: C901  pylint: disable=too-many-bran
                     else:
                         ok = st == "exc" and exc_type == "AttributeError"
                         exp_txt = "AttributeError"
-                    if not ok:
+                    if not ok and st == "ok" and key is None and J(_plain(res)) in held["alias"].get(name, []):
+                        viol("aliasing", {"op": "mutate_read_value", "effect": "snapshot"},
+                             f"{desc}: snapshot of {held['ent']} captured as {_res_txt(insp)} now has {name} = "
+                             f"{_res_txt(res)}: it shares the list/dict with a value that was read separately and "
+                             f"changed in place", t)
+                    elif not ok:
                         viol("snapshot_mutated", dict(sig, fields=name if key is None else key),
                              f"{desc}: snapshot of {held['ent']} captured as {_res_txt(insp)}; expected {exp_txt}, "
                              f"but it {got_txt}", t)
@@ -899,7 +1054,13 @@ def oracle(w: C16World, scn: dict):  # noqa: C901  pylint: disable=too-many-bran
         # ------------------------------------------------------------ exist / names / getattr
         if k == "exist":
             exp_v = cur is not None and (attr is None or attr in cur["a"])
-            if st != "ok" or res["t"] != "bool" or res["v"] != exp_v:
+            if cur is not None and attr in VIRTUAL and attr not in cur["a"]:
+                # a virtual field without a real attribute of that name: readable, but is it "an attribute that
+                # exists"? open; it must answer with a bool
+                if st != "ok" or res["t"] != "bool":
+                    viol("exist", {"op": "state.exist", "what": "virtual", "expected": "bool"},
+                         f"{desc}: {ent} is {_fmt(cur)}; expected True or False, but it {got_txt}", t)
+            elif st != "ok" or res["t"] != "bool" or res["v"] != exp_v:
                 viol("exist", {"op": "state.exist", "what": "attr" if attr else "entity", "expected": exp_v}, f"{desc}: {ent} is {_fmt(cur)}; expected {exp_v}, but it {got_txt}", t)
             else:
                 stats["reads"] += 1
@@ -922,7 +1083,14 @@ def oracle(w: C16World, scn: dict):  # noqa: C901  pylint: disable=too-many-bran
                 held = slots.get((wname, op["slot"]))
                 if held is not None:
                     exp_v = held["insp"]["a"]
-                    if st != "ok" or res["t"] != "val" or J(res["v"]) != J(exp_v):
+                    # whether a snapshot still knows real attributes named like the virtual fields is open
+                    got_v = ({key: val for key, val in res["v"].items() if key not in VIRTUAL}
+                             if st == "ok" and res["t"] == "val" and isinstance(res["v"], dict) else None)
+                    if got_v is not None and J(got_v) != J(exp_v) and _alias_only(held, got_v):
+                        viol("aliasing", {"op": "mutate_read_value", "effect": "snapshot"},
+                             f"{desc}: snapshot captured as {_res_txt(held['insp'])}; state.getattr {got_txt}: it shares "
+                             f"a list/dict with a value that was read separately and changed in place", t)
+                    elif got_v is None or J(got_v) != J(exp_v):
                         viol("getattr", {"op": "state.getattr", "arg": "snapshot"},
                              f"{desc}: snapshot captured as {_res_txt(held['insp'])}; expected {exp_v}, but it {got_txt}", t)
                     else:
@@ -976,6 +1144,12 @@ def oracle(w: C16World, scn: dict):  # noqa: C901  pylint: disable=too-many-bran
                 bases = [old_attrs]
                 if held is not None:
                     bases.append(held["insp"]["a"])
+                    if held["entry"] is not None and J(held["entry"]["a"]) != J(held["insp"]["a"]):
+                        bases.append(held["entry"]["a"])  # with its real attributes named like virtual fields
+                    for aname in sorted(held.get("alias", {})):
+                        # a snapshot known (and reported) to share a value that was changed in place
+                        for alt in held["alias"][aname]:
+                            bases.append(dict(held["insp"]["a"], **{aname: json.loads(alt)}))
                 if kw and any(key not in kw for key in old_attrs):
                     w.probe("kw_merge_keeps_other")
             for val in values:
@@ -1018,8 +1192,18 @@ def oracle(w: C16World, scn: dict):  # noqa: C901  pylint: disable=too-many-bran
             sig["what"] = "attr" if attr else "entity"
 
         before = copy.deepcopy(cur)
+        # an attribute named like a parameter of state.set: judged like any attribute, reported under its own class
+        if cur is not None and (attr in VIRTUAL or any(key in VIRTUAL for key in primary_kw) or (
+                k == "set" and isinstance(op["na"].get("v"), dict) and any(key in VIRTUAL for key in op["na"]["v"]))):
+            w.probe("virtual_named_attr_written")
+        param_attr = k in ("attr_assign", "setattr") and attr in SETPARAM_ATTRS
+        if param_attr and cur is not None:
+            w.probe("attr_named_like_set_param")
         if st == "exc":
-            if not may_raise:
+            if not may_raise and param_attr:
+                viol("setattr_param_name", dict(sig, attr=attr),
+                     f"{desc}: {ent} was {_fmt(cur)}; setting the attribute `{attr}` {got_txt}", t)
+            elif not may_raise:
                 viol("op_exception", dict(sig, exc=exc_type), f"{desc}: {ent} was {_fmt(cur)}; the operation {got_txt}", t)
             # an operation that raised must not have changed anything
             outcomes = [before]
@@ -1061,9 +1245,11 @@ def oracle(w: C16World, scn: dict):  # noqa: C901  pylint: disable=too-many-bran
             viol("op_result", sig, f"{desc}: returned {_res_txt(res)} instead of None", t)
 
         def classify_write(ent_, diff, exp, got, _k=k, _sig=sig, _ent=ent, _attr=attr, _op=op, _before=before,
-                           _kw=primary_kw):
+                           _kw=primary_kw, _param_attr=param_attr):
             if ent_ != _ent:
                 return ("unexpected_write", {"op": _sig["op"], "fields": "+".join(diff)})
+            if _param_attr and "exists" not in diff:
+                return ("setattr_param_name", dict(_sig, attr=_attr))
             if "exists" in diff:
                 if _k == "del":
                     return ("delete", _sig)
@@ -1114,6 +1300,24 @@ def oracle(w: C16World, scn: dict):  # noqa: C901  pylint: disable=too-many-bran
     extra = {"script_ops": stats["ops"], "ext_ops": stats["ext"], "writes": stats["writes"], "reads": stats["reads"],
              "exc_expected": stats["exc_expected"], "writers": len(set(started))}
     return violations, nontrivial, extra
+
+
+def _mutated(val):
+    """The value after the in-place change of a `mut` operation (a new object)."""
+    if isinstance(val, list):
+        return copy.deepcopy(val) + [MUT_ITEM]
+    if isinstance(val, dict):
+        return dict(copy.deepcopy(val), **{MUT_ITEM: 1})
+    return copy.deepcopy(val)
+
+
+def _alias_only(held: dict, got_attrs: dict) -> bool:
+    """Does a snapshot differ from its capture only in values known to be shared with an in-place change?"""
+    cap = held["insp"]["a"]
+    if sorted(cap) != sorted(got_attrs):
+        return False
+    wrong = [key for key in cap if J(cap[key]) != J(got_attrs[key])]
+    return bool(wrong) and all(J(got_attrs[key]) in held.get("alias", {}).get(key, []) for key in wrong)
 
 
 def _plain(res: dict):
@@ -1171,7 +1375,8 @@ def _judge_snapshot(viol, sig, desc, ent, cur, res, t) -> None:
     bad = []
     if res["s"] != cur["s"]:
         bad.append("state")
-    if J(res["a"]) != J(cur["a"]):
+    # the four virtual fields hide a real attribute of the same name on a snapshot (judged through eid/lc/lu/lr)
+    if J(res["a"]) != J({key: val for key, val in cur["a"].items() if key not in VIRTUAL}):
         bad.append("attrs")
     if res["eid"] != ent:
         bad.append("entity_id")
